@@ -38,7 +38,7 @@ def judge(ck, name, cases, results):
                 loc = " @" + detail.split(": ")[0].replace("/repo/", "")
             elif isinstance(detail, str) and detail:
                 loc = " " + detail.split("(")[0][:60]
-            sig = "C01 honest run %s%s" % (what, loc)
+            sig = "C01 honest run%s %s%s" % (" (degenerate constant-column trace)" if name == "degenerate" else "", what, loc)
             ck.violation(sig, "%s :: %s :: %s" % (starklib.cfg_signature(c), what, str(detail)[:300]),
                          {"engine": "pipeline", "case": c, "result": r})
     ck.traces += len(cases)
@@ -49,10 +49,14 @@ def judge(ck, name, cases, results):
 def run(ck, tier):
     binary = vf.build_harness("stark")
     thorough = tier == "thorough"
-    b = starklib.generate(ck, "BoundaryStarkCfg.cfg", "boundary", tag="BOUNDARY")
+    b, deg = starklib.generate_multi(ck, "BoundaryStarkCfg.cfg", "boundary", ["BOUNDARY", "DEGENERATE"])
     ck.require(len(b) >= 25, "boundary list too short: %d" % len(b))
     res = starklib.run_pipeline(binary, "c01-boundary", b)
     judge(ck, "boundary", b, res)
+    # satisfied instances with a degenerate (constant-column) trace: recorded finding F09
+    ck.require(len(deg) >= 2, "degenerate list missing")
+    res = starklib.run_pipeline(binary, "c01-degenerate", deg)
+    judge(ck, "degenerate", deg, res)
     ck.sample(starklib.shrink(b[1]))
     n = 4000 if thorough else 400
     s = starklib.generate(ck, "SimStarkCfg_thorough.cfg" if thorough else "SimStarkCfg.cfg", "simulate", simulate=n, depth=40)
